@@ -92,11 +92,12 @@ def is_const(t):
 
 
 class Deep:
-    def __init__(self, F, root, max_paths=3000, max_depth=6, inline=True, opaque=None, inline_only=None, stop_at=(), prune=None, unroll=1):
+    def __init__(self, F, root, max_paths=3000, max_depth=6, inline=True, opaque=None, inline_only=None, stop_at=(), prune=None, unroll=1, watch_named=False):
         self.stop_at = frozenset(stop_at)
         # unroll: how often a block of the root frame may be visited on one path (2 = every loop body is followed by
         # one more turn, so that what one turn accumulates can be seen in what is done after the loop)
         self.unroll = unroll
+        self.watch_named = watch_named
         # prune: None, or a regex of "interesting" opaque callees.  With pruning, a frame is left as soon as no write
         # through a reference, no interesting call and no inlinable callee containing such is reachable any more: what
         # follows (formatting, logging ..) cannot change the recorded writes and is not explored (value: ("pruned", n)).
@@ -352,6 +353,9 @@ class Deep:
                 pl = stmt["pl"]
                 place = self.place_of(fr, st, pl)
                 if "*" in pl["p"] or place[0] == "deref" or self._outer(fr, place):
+                    st.effects.append(("write", place, val, (body.key, bb, si)))
+                elif self.watch_named and fr.fid == 0 and not pl["p"] and body.debug_name(pl["l"]):
+                    # assignments to the root routine's own (user-named) variables, on request
                     st.effects.append(("write", place, val, (body.key, bb, si)))
                 self.write(st, place, val)
             t = blk["term"]
